@@ -9,6 +9,7 @@ from typing import (
     List,
     Optional,
     Protocol,
+    Set,
     Tuple,
     Union,
     cast,
@@ -113,8 +114,17 @@ def resolve1(x: object, default: object = None) -> Any:
     If this is an array or dictionary, it may still contains
     some indirect objects inside.
     """
+    seen: Optional[Set[int]] = None
     while isinstance(x, PDFObjRef):
-        x = x.resolve(default=default)
+        y = x.resolve(default=default)
+        if isinstance(y, PDFObjRef):
+            # A reference to a reference: make sure the chain does not loop.
+            if seen is None:
+                seen = {x.objid}
+            if y.objid in seen:
+                return default
+            seen.add(y.objid)
+        x = y
     return x
 
 
@@ -124,8 +134,7 @@ def resolve_all(x: object, default: object = None) -> Any:
     Make sure there is no indirect reference within the nested object.
     This procedure might be slow.
     """
-    while isinstance(x, PDFObjRef):
-        x = x.resolve(default=default)
+    x = resolve1(x, default=default)
     if isinstance(x, list):
         x = [resolve_all(v, default=default) for v in x]
     elif isinstance(x, dict):
